@@ -283,10 +283,13 @@ type fullReader struct {
 	io.Reader
 }
 
+// Read fills p unless the underlying reader ends first: (n, io.EOF) at the end of the data. Any other error,
+// including the io.ErrUnexpectedEOF of a truncated archive, is passed on (a short file must not look complete).
 func (f fullReader) Read(p []byte) (n int, err error) {
-	n, err = io.ReadFull(f.Reader, p)
-	if err == io.ErrUnexpectedEOF {
-		err = io.EOF
+	for n < len(p) && err == nil {
+		var nn int
+		nn, err = f.Reader.Read(p[n:])
+		n += nn
 	}
 	return
 }
